@@ -6,11 +6,13 @@
       [Allowlist] interface ([AConst]) so that other minima / maxima than 20 / 128 are reachable;
     - verifcid/cid.go [ValidateCid]: the decision on (code, length);
     - blockservice/blockservice.go: lib/BlockSvc.v instantiated with that validator.
-    The three default-allowlist functions are ALSO re-translated from the Go source on every run
-    (gen/Gen_C04.v by tools/go2coq) and proved equal to the hand transcription in proofs/P_C04.v,
-    so an edit of the Go functions breaks a proof, not just a sampled comparison. *)
+    The three default-allowlist functions are NOT hand-written: the model uses gen/Gen_C04.v,
+    re-translated from the Go source on every run by tools/go2coq.  The explicit table below
+    ([default_is_allowed] / [default_min] / [default_max]) is the SPECIFICATION side: proofs/P_C04.v
+    proves the translated functions equal to it, so an edit of the Go functions breaks a proof, and
+    the correspondence check then exhibits the (code, length) on which the code leaves the table. *)
 From Coq Require Import List ZArith Bool NArith.
-From V Require Import lib.Verdict lib.BlockSvc.
+From V Require Import lib.Verdict lib.BlockSvc gen.Gen_C04.
 Import ListNotations.
 Open Scope Z_scope.
 
@@ -34,7 +36,7 @@ Definition default_is_allowed (code : Z) : bool :=
   else if (BLAKE2S_MIN + 19 <=? code) && (code <=? BLAKE2S_MAX) then true
   else false.
 Definition default_min (code : Z) : Z := if code =? IDENTITY then 0 else 20.
-Definition default_max (code : Z) : Z := if code =? IDENTITY then 128 else 128.
+Definition default_max (code : Z) : Z := 128.
 
 (** the configured allowlist *)
 Inductive alist :=
@@ -48,9 +50,10 @@ Fixpoint assoc (k : Z) (m : list (Z * bool)) : option bool :=
   | (k', v) :: r => if k =? k' then Some v else assoc k r
   end.
 
+(** model: the allowlist implementations of allowlist.go; the default one is the translated Go *)
 Fixpoint is_allowed (al : alist) (code : Z) : bool :=
   match al with
-  | ADefault => default_is_allowed code
+  | ADefault => defaultAllowlist_IsAllowed code
   | AConst l _ _ => zin code l
   | ACustom ov m =>
       match assoc code m with
@@ -60,16 +63,43 @@ Fixpoint is_allowed (al : alist) (code : Z) : bool :=
   end.
 Fixpoint min_digest (al : alist) (code : Z) : Z :=
   match al with
-  | ADefault => default_min code
+  | ADefault => defaultAllowlist_MinDigestSize code
   | AConst _ mn _ => mn
   | ACustom (Some o) _ => min_digest o code
-  | ACustom None _ => default_min code
+  | ACustom None _ => defaultAllowlist_MinDigestSize code
   end.
 Fixpoint max_digest (al : alist) (code : Z) : Z :=
   match al with
-  | ADefault => default_max code
+  | ADefault => defaultAllowlist_MaxDigestSize code
   | AConst _ _ mx => mx
   | ACustom (Some o) _ => max_digest o code
+  | ACustom None _ => defaultAllowlist_MaxDigestSize code
+  end.
+
+(** specification: what "allowed by the configured allowlist" and "allowed minimum / maximum for
+    that function" mean — the default allowlist is the explicit table *)
+Fixpoint sp_allowed (al : alist) (code : Z) : bool :=
+  match al with
+  | ADefault => default_is_allowed code
+  | AConst l _ _ => zin code l
+  | ACustom ov m =>
+      match assoc code m with
+      | Some good => good
+      | None => match ov with Some o => sp_allowed o code | None => false end
+      end
+  end.
+Fixpoint sp_min (al : alist) (code : Z) : Z :=
+  match al with
+  | ADefault => default_min code
+  | AConst _ mn _ => mn
+  | ACustom (Some o) _ => sp_min o code
+  | ACustom None _ => default_min code
+  end.
+Fixpoint sp_max (al : alist) (code : Z) : Z :=
+  match al with
+  | ADefault => default_max code
+  | AConst _ _ mx => mx
+  | ACustom (Some o) _ => sp_max o code
   | ACustom None _ => default_max code
   end.
 
@@ -83,7 +113,7 @@ Definition validate (al : alist) (code len : Z) : verr :=
 (** ---------- specification ---------- *)
 (** what the property says the validator decides *)
 Definition valid_spec (al : alist) (code len : Z) : bool :=
-  is_allowed al code && (min_digest al code <=? len) && (len <=? max_digest al code).
+  sp_allowed al code && (sp_min al code <=? len) && (len <=? sp_max al code).
 Definition cid_ok (al : alist) (c : cid) : bool := valid_spec al (c_code c) (c_len c).
 Definition mh_ok (al : alist) (m : mh) : bool := let '(code, len, _) := m in valid_spec al code len.
 Definition store_clean (al : alist) (s : store) : bool := forallb (fun e => mh_ok al (fst e)) s.
